@@ -355,6 +355,8 @@ pub fn run(args: &Args) -> i32 {
 		ev.set("sweeper_lookahead_comparisons", st.sweeper_lookaheads);
 		ev.set("sweeper_distinct_observations", st.sweeper_distinct_observations);
 		ev.set("sweeper_tlv_probes", st.sweeper_tlv_probes);
+		ev.set("graph_length_sweep_cases", st.graph_length_cases);
+		ev.set("graph_length_sweep_roundtrips_equal", st.graph_length_roundtrips_ok);
 		if st.scorer_distinct_observations < 10 || st.sweeper_distinct_observations < 10 || st.sweeper_states_written == 0 {
 			mc_common::cli::die("vacuity guard: scorer / sweeper exploration reached too few distinct states");
 		}
